@@ -103,6 +103,11 @@ func VerifC07_CandidateMatrix() {
 		d := 30 * time.Second
 		pool.Spec.Disruption.ConsolidateAfter = v1.NillableDuration{Duration: &d}
 	}
+	// the NodePool's template may ask for a terminationGracePeriod that this (older) NodeClaim does not carry: only the
+	// NodeClaim's own setting counts
+	if (sweep == 1 || sweep == 3) && pick("pool.terminationGracePeriod") {
+		pool.Spec.Template.Spec.TerminationGracePeriod = &metav1.Duration{Duration: time.Hour}
+	}
 	pool.Spec.Disruption.ConsolidationPolicy = v1.ConsolidationPolicyWhenEmptyOrUnderutilized
 	if whenEmpty {
 		pool.Spec.Disruption.ConsolidationPolicy = v1.ConsolidationPolicyWhenEmpty
